@@ -81,7 +81,14 @@ def generate(seed, mode="c15", opts=None):
     for mid in range(n_mods):
         insts = []
         for k in range(ch.rint(1, 4, "ninst")):
-            insts.append(draw_request(ch, target, tb, h))
+            r = draw_request(ch, target, tb, h)
+            insts.append(r)
+            if r[0] in ("res", "cap", "diode", "bjt") and not r[1].get("bogus") and ch.chance(1, 2):
+                # the same device again, with one size changed (caches must tell them apart)
+                r2 = [r[0], dict(r[1]), r[2]]
+                f = ch.pick(["w", "l", "mult"], "resize")
+                r2[1][f] = {None: (2 if f != "l" else 3)}.get(r[1].get(f), None if ch.chance(1, 2) else 5)
+                insts.append(r2)
         subs = []
         if mid > 0:
             for _ in range(ch.rint(0, 2, "nsubs")):
